@@ -126,6 +126,7 @@ inductive V where
   | frac (milli : Int)               -- a float64 that is not an integer: milli / 1000 (written with ≤ 3 decimals)
   | str (s : String)
   | bool (b : Bool)
+  | list (items : List String)       -- a list-valued setting (handlers, resources, …), items kept opaque
 deriving DecidableEq, Repr
 
 /-- mergo's `isEmptyValue` -/
@@ -134,6 +135,7 @@ def V.isEmpty : V → Bool
   | .frac m => m == 0
   | .str s => s == ""
   | .bool b => !b
+  | .list l => l.isEmpty
 
 abbrev Chain := List (String × V)
 
